@@ -391,6 +391,39 @@ def _topologies():
     return mb.build()
   out['two_subgraphs_independent'] = two_sigs(False)
   out['two_subgraphs_shared_buffer'] = two_sigs(True)
+
+  def same_constant_name():
+    # valid flatbuffer whose two subgraphs each have a constant called 'w'
+    # (names are only unique per subgraph in the schema)
+    mb = skeletons.ModelBuilder()
+    g1 = mb.subgraph('g1')
+    x = g1.input('x1', (1, 2))
+    w1 = g1.const('w', np.array([[0.5, -1.0], [2.0, 0.25]], np.float32))
+    g1.output(g1.fc(x, 'y_a', bias=False, w_idx=w1))
+    g2 = mb.subgraph('g2')
+    x2 = g2.input('x2', (1, 2))
+    mb.all_names.discard('w')
+    w2 = g2.const('w', np.array([[1.5, 3.0], [-2.0, 0.75]], np.float32))
+    g2.output(g2.fc(g2.unary('GELU', x2, 'gelu_b'), 'y_b', bias=False,
+                    w_idx=w2))
+    mb.signature('first', g1, ['x'], ['y'])
+    mb.signature('second', g2, ['x'], ['y'])
+    return mb.build()
+  out['two_subgraphs_same_constant_name'] = same_constant_name()
+
+  def acts_share_empty_buffer():
+    # every activation points at ONE data-less buffer with a non-zero index
+    # (what a buffer de-duplication pass produces)
+    mb = skeletons.ModelBuilder()
+    g = mb.subgraph()
+    x = g.input('x', (1, 2))
+    t = g.fc(x, 't')
+    g.output(g.unary('TANH', t, 'y'))
+    shared = g.sg.tensors[x].buffer
+    for i in (t, g.sg.outputs[0]):
+      g.sg.tensors[i].buffer = shared
+    return mb.build()
+  out['activations_share_empty_buffer'] = acts_share_empty_buffer()
   return out
 
 
